@@ -66,6 +66,13 @@ def valid_value(rng, kind, attr, enc_pool=None):
     if attr.endswith('encoding'):
         return rng.choice(enc_pool or gen.ENCS)
     elif t == 'str':
+        if rng.chance(0.04):
+            # a few hundred characters of mixed widths (multi-byte
+            # characters at every offset from either end)
+            return ''.join(rng.choice(['\u00e9', '\u65e5', 'a', 'b ', '\n',
+                                       '\U0001f600'])
+                           for _ in range(rng.randint(200, 700))) + '\n'
+
         return gen.gen_text(rng, 'utf-8', 6)
     elif t == 'int':
         return rng.choice([0, 1, 2, 4, 8])
